@@ -144,13 +144,13 @@ theorem cbelt_stop_interrupts_every_item (s : CBelt) (hacc : s.cfg.acc = false) 
   have h1 : (CState.stalledNon).stalled = true := rfl
   have hne : s.items.isEmpty = false := by cases h : s.items <;> simp_all
   have key : s.setState .stalledNon =
-      s.items.foldl (fun s it => s.interruptItem it.item.id) ({ s with st := .stalledNon, noacc := true } : CBelt) := by
+      s.items.foldl (fun s it => s.interruptItem it.item.id) ({ s with st := .stalledNon, everStalled := s.everStalled || true, noacc := true } : CBelt) := by
     unfold CBelt.setState
     simp only [hst, h1, hacc, Bool.not_false, Bool.and_self, if_true]
     unfold CBelt.selectiveInterrupt
     simp only [hne, Bool.false_eq_true, if_false, if_true]
   rw [key]
-  exact mem_foldl_interrupt s.items ({ s with st := .stalledNon, noacc := true } : CBelt) it q hit hq
+  exact mem_foldl_interrupt s.items ({ s with st := .stalledNon, everStalled := s.everStalled || true, noacc := true } : CBelt) it q hit hq
 
 /-- an interrupted item waits with exactly the travel it had left; a running one is accounted for exactly -/
 theorem cbelt_resume_exact {s : CBelt} (h : C12.ReachC s) :
